@@ -23,6 +23,7 @@ RULE = (
     'distinct by row.'
     ' broken: markup the HTML parser rejects or that has attributes without value, as text and bytes, under four (media type, transport '
     'charset) settings: the sniffers and getEncodingInfo must not raise and the transport charset still wins.'
+    " Media types that merely CONTAIN '+xml', processing instructions that are no XML declaration ('<?xml-stylesheet ... encoding=...?>')."
 )
 ASSUMPTIONS = [
     'documents have at least 4 characters (shorter ones are pinned to None by the suite)',
